@@ -534,17 +534,13 @@ func (h *handler1) handleConnect(ctx context.Context, snConnect *snPkts1.Connect
 	// The ProtocolId [...] is coded 0x01. All other values are reserved.
 	// MQTT-SN specification v. 1.2, chapter 5.3.8
 	if snConnect.ProtocolID != 0x01 {
-		reply := &snPkts1.Connack{
-			ReturnCode: snPkts1.RC_NOT_SUPPORTED,
-		}
+		reply := snPkts1.NewConnack(snPkts1.RC_NOT_SUPPORTED)
 		return h.snSend(reply)
 	}
 
 	if h.state.Get() == util.StateAwake {
 		h.setState(util.StateActive)
-		reply := &snPkts1.Connack{
-			ReturnCode: snPkts1.RC_ACCEPTED,
-		}
+		reply := snPkts1.NewConnack(snPkts1.RC_ACCEPTED)
 		return h.snSend(reply)
 	}
 
@@ -556,9 +552,7 @@ func (h *handler1) handleConnect(ctx context.Context, snConnect *snPkts1.Connect
 	// exploitable memory leaks.
 	// Hence, we simply do not accept zero keepalive.
 	if snConnect.Duration == 0 {
-		reply := &snPkts1.Connack{
-			ReturnCode: snPkts1.RC_NOT_SUPPORTED,
-		}
+		reply := snPkts1.NewConnack(snPkts1.RC_NOT_SUPPORTED)
 		return h.snSend(reply)
 	}
 
